@@ -8,6 +8,10 @@ ids = [p["id"] for p in props]
 
 # id -> (engine, technique, level text, level note, design ref)
 CHECKS = {
+ "C15": ("E5", "bounded-exhaustive enumeration of the full flag product on the real endorse pipeline with recording doubles and captured stdout, each configuration compared with a real run of the same configuration",
+         "All 384 combinations of dry-run / measurement-only / both, technology selection, snapshot directory, candidate name, overwrite, VMSA count, machine shapes and pre-existing files are executed through endorse.VirtualFirmware with recording CertificateAuthority, Signer, VersionControl and ChangeOps doubles; no workspace, write or commit may occur, measurement-only may not touch keys or CA, printed measurements (and the digest handed to the signer in dry-run) must equal those of a real run; 18 CLI runs check the flag wiring over localnonvcs on disk.",
+         "Trusted: dry-run's signed digest is compared with the real run's only when the SNP table has at most one entry (Go protobuf marshals maps in random order); images are small synthetic firmware.",
+         "DESIGN.md#c15"),
  "C13": ("E3", "explicit-state BFS to closure over histories of real endorse.VirtualFirmware runs (3 images x 3 names x overwrite x snapshot), canonical manifest/file state, invariants per state and per transition; plus exhaustive small-scope check of the merge function against a two-map reference",
          "The closure of reachable manifest/file states (891 canonical states per back end, 36 actions from each) is explored through the real signing and commit path over an in-memory version-control double and over localnonvcs on disk; in every state the manifest parses, paths and digests are unique and every entry names an existing file endorsing the listed digest; on every transition the latest run is indexed under the file it wrote and no endorsement file is replaced without overwrite. The unexported merge function is additionally compared with a two-map reference on all manifests of <=3 entries.",
          "Trusted: pools of 3 images x 3 names contain every case of the four-way merge (larger pools add no new abstract state); canonical form ignores timestamps and signature bytes; the merge sub-check needs the overlay export (degraded otherwise).",
